@@ -244,7 +244,7 @@ Blobs == {<<"bytes", <<>>>>, <<"bytes", <<0, 255>>>>}
 Leaves == Ints \cup Texts \cup Blobs
 A1 == <<37, 97>>            \* %a
 A2 == <<58, 98>>            \* :b
-AnnA == {<<>>, <<A1>>, <<A1, A2>>, <<<<64>>>>}
+AnnA == {<<>>, <<A1>>, <<A2, A1>>, <<<<64>>>>}         \* none, %a, ":b %a" (not in byte order), a bare @
 AnnB == {<<>>, <<A1>>}
 Lists2(Q) == {<<>>} \cup {<<x>> : x \in Q} \cup {<<x, y>> : x \in Q, y \in Q}
 Long(Q) == {<<x, y, x>> : x \in Q, y \in Q} \cup {<<x, x, x, x>> : x \in Q}
